@@ -357,6 +357,24 @@ macro_rules! mk { ($p:path, $m:meta, $b:path) => {
 } }
 mk!(%s, %s, ::core::clone::Clone);
 """ % (p, m)))
+    # `$crate` paths of an exported macro: they exist only inside rustc (a printed and re-lexed `$crate` is `$` `crate`), in
+    # every place where the derive takes a type or a path of the user's: Into targets, field types under automatic
+    # bounds, method paths, bound predicates, default expressions; and lifetime twins that mention only a const parameter
+    out.append(("mc0", """
+pub struct Foo(pub u8);
+#[derive(Debug, Clone, PartialEq, Default)] pub struct Slot<T>(pub T);
+pub fn fmt_it<X>(_x: &X, f: &mut ::core::fmt::Formatter<'_>) -> ::core::fmt::Result { f.write_str("x") }
+pub fn mk_foo() -> Foo { Foo(1) }
+macro_rules! mk { ($n:ident) => {
+    #[derive(::educe::Educe)] #[educe(Into($crate::Foo))] pub struct A { pub a: $crate::Foo, pub b: u8 }
+    #[derive(::educe::Educe)] #[educe(Into($crate::Foo), Into(u8))] pub enum B { V(#[educe(Into($crate::Foo))] $crate::Foo, #[educe(Into(u8))] u8) }
+    #[derive(::educe::Educe)] #[educe(Debug, Clone, PartialEq, Default)] pub struct C<T> { pub a: $crate::Slot<T>, pub b: $crate::Slot<u8> }
+    #[derive(::educe::Educe)] #[educe(Debug, Clone(bound($crate::Slot<T>: ::core::clone::Clone)))] pub enum D<T> { V($crate::Slot<T>), W { #[educe(Debug(method($crate::fmt_it)))] x: T } }
+    #[derive(::educe::Educe)] #[educe(Default, Deref)] pub struct E { #[educe(Default = $crate::mk_foo(), Deref)] pub a: $crate::Foo, pub b: u8 }
+    #[derive(::educe::Educe)] #[educe(Debug, Clone, PartialEq, Hash)] pub struct $n<'a, 'b, const N: usize> { pub head: &'a [u8; N], pub tail: &'b [u8; N] }
+} }
+mk!(Twins);
+"""))
     return out
 
 
